@@ -18,7 +18,7 @@ THEOREMS = ["C07_numerals_bounded", "C07_hex_numerals_bounded", "C07_saturation_
 RULE = ("every sequence of up to k lexical fragments from the language's alphabet (k=2 quick over the full alphabet, "
         "k=3 over a reduced alphabet; thorough k=3 full), random junk text incl. non-ASCII, grammar programs with arguments "
         "dropped/duplicated/out of range (every command name of the implementation's table x 16 argument shapes, every reservation head x "
-        "reservation command x argument shape, each followed by notes; integer edge values (isize::MIN / MAX reached by arithmetic) under every binary operator and as command values, signs in front of empty numerals wherever a number is read; every character of U+0000..U+00FF and of the range boundaries the code tests in 22..32 one-character contexts), truncations and mutations of /repo/samples, programs of the extended "
+        "reservation command x argument shape, each followed by notes; logs crossing the 4096-character limit with multi-byte characters at every alignment; integer edge values (isize::MIN / MAX reached by arithmetic) under every binary operator and as command values, signs in front of empty numerals wherever a number is read; every character of U+0000..U+00FF and of the range boundaries the code tests in 22..32 one-character contexts), truncations and mutations of /repo/samples, programs of the extended "
         "pipeline fragment (mmlgen.ext_program: controllers, bends, RPN, reservations, PLAY, Str); non-trivial = distinct input of >= 2 fragments")
 TRUSTED = ["watchdog: a case that makes no progress for 15 s counts as a hang",
            "stack overflow / allocation failure / 64-bit overflow checks live in the runtime: observed on the implementation (debug build), not provable on the model"]
@@ -170,9 +170,21 @@ def overflow_stream():
     return out
 
 
+def long_log_stream(rng, quick):
+    """logs that cross the 4096-character limit with characters of 1, 2, 3 and 4 UTF-8 bytes, at every alignment of the cut"""
+    out = []
+    for ch in ["a", "é", "あ", "😀"]:
+        for pad in (range(0, 5) if quick else range(0, 12)):
+            out.append("Print({%s%s})" % ("x" * pad, ch * rng.choice([1400, 2100, 4100, 4096])))
+            k = rng.choice([60, 80, 99, 120])
+            out.append("Int I=0; FOR(I=0;I<%d;I++){ Print({%s%s}) }" % (k, "x" * pad, ch * rng.choice([14, 25, 40, 60])))
+        out.append("".join("%s\n" % (ch * 30) for _ in range(40)))      # unknown-character errors quoting the text
+    return out
+
+
 def run(ctx):
     rng = ctx.rng
-    srcs = overflow_stream() + grammar_stream(rng, ctx.tier == "quick") + char_context_stream(ctx.tier == "quick")
+    srcs = long_log_stream(rng, ctx.tier == "quick") + overflow_stream() + grammar_stream(rng, ctx.tier == "quick") + char_context_stream(ctx.tier == "quick")
     ctx.dist["grammar_and_char_streams"] = len(srcs)
     if ctx.tier == "quick":
         srcs += ["".join(p) for p in itertools.product(FRAGS, repeat=1)]
